@@ -234,6 +234,28 @@ pub proof fn lemma_inj_digests_len<F: Field>(s: Seq<Arity4PathStep>, ov: Seq<Seq
 } // verus!
 '''
 
+SPEC4 = r'''
+verus! {
+pub open spec fn pow2i(k: int) -> int decreases k { if k <= 0 { 1 } else { 2 * pow2i(k - 1) } }
+pub open spec fn is_pow2i(n: int) -> bool { exists|k: int| 0 <= k < 64 && #[trigger] pow2i(k) == n }
+/// log2 of the cap length (0 for a single root)
+pub uninterp spec fn log2u(n: int) -> int;
+pub open spec fn cap_log_of(n: int) -> int { if n == 1 { 0 } else { log2u(n) } }
+#[verifier::external_body]
+pub fn log2_strict_usize(n: usize) -> (r: usize) requires is_pow2i(n as int) ensures r == log2u(n as int), r < 64 { unimplemented!() }
+/// witness predicate: `root` is what select_cap_entry returned for exactly these selector-bit VALUES (the selection itself is proved in unit mmcs)
+pub uninterp spec fn cap_selected_with<F: Field>(c: &CircuitBuilder<F>, cap: Seq<Vec<Target>>, bits: Seq<F>, root: Seq<ExprId>) -> bool;
+#[verifier::external_body]
+pub fn select_cap_entry<EF: FieldX>(circuit: &mut CircuitBuilder<EF>, cap: &[Vec<Target>], index_bits: &Vec<Target>) -> (ret: Vec<Target>)
+    requires old(circuit).has_all(index_bits@)
+    ensures final(circuit).extends_pure(old(circuit)), cap_selected_with(final(circuit), cap@, old(circuit).vals_of(index_bits@), ret@)
+{ unimplemented!() }
+/// arity4_leaf_rows / arity4_path_schedule (the latter is unit a4sched): opaque here
+#[verifier::external_body] pub fn arity4_leaf_rows(dimensions: &[Dimensions], max_height: usize) -> Vec<usize> { unimplemented!() }
+#[verifier::external_body] pub fn arity4_path_schedule(dimensions: &[Dimensions], max_height: usize, num_roots: usize) -> (r: Vec<Arity4PathStep>) ensures r@.len() < 0x1000_0000 { unimplemented!() }
+} // verus!
+'''
+
 # contract of add_arity4_compression_row: proved on the real function, assumed (same text) at its call sites in arity4_emit_path
 ROW_REQ = '''old(circuit).has(direction[0]) && old(circuit).has(direction[1]) && old(circuit).has(zero) && permutation_config.a4_shape() && (step == 2 || step == 4)
         && (injected_digest matches Some(d) ==> old(circuit).has_all(d@))'''
@@ -493,10 +515,45 @@ def build():
                 }
             }
         } r_ }''' + d.body[c_ + 1:]
+    # ---------------------------------------------------------------- arity4_prepare[cap_selection] (R13 slice): which index bits select the cap entry
+    pz = u.extract(M, '', 'arity4_prepare', 'arity4_prepare[cap_selection]')
+    m1 = re.search(r'let num_roots = commitment_cap\.len\(\);', pz.body)
+    if not m1:
+        raise ExtractError('lost anchor in arity4_prepare[cap_selection]: `let num_roots = commitment_cap.len();`')
+    pz.body = '{\n' + pz.body[m1.start():]
+    pz.rewrites.append(('R13', 'function body := from `let num_roots = commitment_cap.len();` to the end', 'prefix: the arity-4 shape check of the configuration, the non-empty-cap assertion, the height-compatibility check and max_height (a parameter here)'))
+    pz.set_sig('R11', 'fn arity4_prepare_cap<EF: FieldX>(circuit: &mut CircuitBuilder<EF>, commitment_cap: &[Vec<Target>], dimensions: &[Dimensions], index_bits: &[Target], max_height: usize) -> Result<(Vec<Target>, Vec<Arity4PathStep>, Vec<usize>), CircuitBuilderError>', sliced=True)
+    pz.rewrite_re('R11', r'EF::ZERO', 'EF::zero_()', min_count=0)
+    pz.rewrite_re('R6', r'let (\w+): usize = schedule\s*\.iter\(\)\s*\.map\(\|s\| ([^;]+?)\)\s*\.sum\(\);', r'let mut \1: usize = 0; for ps_ in 0..schedule.len() { let s = &schedule[ps_]; \1 = \1 + (\2); }', min_count=0, flags_dotall=True)
+    unget_copied_unwrap_or(pz)
+    pz.rewrite_re('R6', r'\(0\.\.cap_log2\)\s*\.map\(\|i\| ([^;]+?)\)\s*\.collect\(\)', r'{ let mut cb_: Vec<Target> = Vec::new(); for i in 0..cap_log2 { let x_ = \1; cb_.push(x_); } cb_ }', min_count=0, flags_dotall=True)
+    pz.attr('#[verifier::loop_isolation(false)]')
+    pz.requires('cap_and_bits', 'commitment_cap@.len() >= 1 && (commitment_cap@.len() == 1 || is_pow2i(commitment_cap@.len() as int)) && old(circuit).has_all(index_bits@) && index_bits@.len() < 0x1000_0000')
+    pz.ensures('the_cap_entry_is_selected_by_the_index_bits_that_follow_the_bits_the_walk_consumes', '''ret matches Ok(t) ==> ({
+            let c0 = old(circuit); let sch = t.1@; let n = sch.len() as int; let cl = cap_log_of(commitment_cap@.len() as int);
+            cap_selected_with(final(circuit), commitment_cap@, Seq::new(cl as nat, |i: int| bit_at(c0.vals_of(index_bits@), consumed(sch, n) + i)), t.0@)
+        })''')
+    PL = 'for ps_ in 0..schedule.len()'
+    if PL in pz.body:
+        pz.loop(PL, invariants=[('bits_consumed_by_the_levels_so_far', 'path_bit_total == consumed(schedule@, ps_ as int) && schedule@.len() < 0x1000_0000 && path_bit_total <= 2 * ps_')])
+    CL = 'for i in 0..cap_log2'
+    if CL in pz.body and PL in pz.body:
+        pz.before(CL, 'let ghost cz = *circuit;')
+        pz.loop(CL, invariants=[('selector_bits_so_far', '''cb_@.len() == i && circuit.has_all(cb_@) && circuit.has(zero) && circuit.val(zero) == EF::fzero() && cz.extends(old(circuit)) && circuit.vals == cz.vals
+            && forall|q: int| 0 <= q < i ==> circuit.val(#[trigger] cb_@[q]) == bit_at(old(circuit).vals_of(index_bits@), path_bit_total + q)''')])
+        lo = pz._loop_open(CL)
+        pz.body = pz.body[:lo + 1] + ' proof { if path_bit_total + i < index_bits@.len() { assert(old(circuit).has(index_bits@[path_bit_total + i as int])); } }' + pz.body[lo + 1:]
+    pz.rewrite_re('SPEC', r'(let selected_root = select_cap_entry\()', r'''proof {
+            let bv = circuit.vals_of(cap_index_bits@);
+            assert(bv =~= Seq::new(cap_index_bits@.len(), |i: int| bit_at(old(circuit).vals_of(index_bits@), consumed(schedule@, schedule@.len() as int) + i)));
+        }
+        \1''', min_count=0)
     u.text(SPEC3)
+    u.text(SPEC4)
     u.text('verus! {')
     u.emit(r)
     u.emit(e)
     u.emit(d)
+    u.emit(pz)
     u.text('}')
     return u
